@@ -409,3 +409,46 @@ Proof.
   split; [|vm_compute; repeat split; reflexivity].
   eexists. vm_compute. repeat split; reflexivity.
 Qed.
+
+(* ------------------------------------------------------------------ T1 for every history (with the frame) *)
+From Verif Require Import proofs.Hub_transient_frame.
+
+(* After every history of operations, whatever operation comes next - except the hello that resumes a session
+   (it flushes the queue of the time the session was away) and a join (which writes the initial data, see
+   join_writes_only_initial) -: a transient message is written only to the connection of a non-virtual session
+   that is, at that moment, a member of the room whose data changes, and whose own room is that room.  The bus
+   is not assumed empty and deliveries come in any order. *)
+Theorem transient_written_to_members limits gated ops o c' t :
+  let h := run (init limits gated) ops in
+  match o with OHello _ (HResume _) | OJoin _ _ _ _ => False | _ => True end ->
+  In (ToConn c' (STransient t)) (snd (step h o)) ->
+  exists k r sid' s', room_of h k = Some r /\ In sid' (r_members r) /\ get_sess h sid' = Some s' /\
+                      s_room s' = Some k /\ is_virtual (s_kind s') = false /\ s_conn s' = Some c'.
+Proof.
+  cbv zeta. set (h := run (init limits gated) ops). intros Ho Hin.
+  assert (W : WF h) by apply wf_reachable.
+  pose proof (trans_frame h o (busnt_reachable limits gated ops)) as F. fold h in F.
+  assert (Hmem : forall h0 k r del key val, (forall y, get_sess h0 y = get_sess h y) -> room_of h0 k = room_of h k ->
+            room_of h0 k = Some r -> In (ToConn c' (STransient t)) (snd (transient_update h0 k r del key val)) ->
+            exists k r sid' s', room_of h k = Some r /\ In sid' (r_members r) /\ get_sess h sid' = Some s' /\
+                      s_room s' = Some k /\ is_virtual (s_kind s') = false /\ s_conn s' = Some c').
+  { intros h0 k r del key val Hg Hrk Hr Hi.
+    apply transient_update_recipient_is_member in Hi as (t' & sid' & s' & _ & _ & Hm & Hs' & Hv & Hc').
+    rewrite Hg in Hs'. rewrite Hrk in Hr. exists k, r, sid', s'. repeat split; auto.
+    destruct (wf_members _ _ h W k r sid' Hr Hm) as [s2 [Hs2 Hk2]]. rewrite Hs' in Hs2. injection Hs2 as <-. exact Hk2. }
+  destruct o as [c a|c hl|c rn rs rep|c to tag|c to tag|c|c|secs|b sg rm q|c q|c to mk st md|tok ok|c kindn key val|pos|c hl late];
+    try (exfalso; exact (F c' t Hin)); try contradiction.
+  - destruct hl; try contradiction; exfalso; exact (F c' t Hin).
+  - destruct (F c' t Hin) as (cn & sid & s & k & r & _ & _ & _ & _ & Hr & _ & _ & Hi).
+    apply (Hmem h k r (N.eqb kindn 1) key val (fun y => eq_refl) eq_refl Hr Hi).
+  - destruct (F c' t Hin) as (p & rest & b & rn & r & del & key & val & _ & _ & _ & Hr & Hi).
+    apply (Hmem (set_bus h rest) (b, rn) r del key val (fun y => eq_refl) eq_refl Hr Hi).
+Qed.
+
+(* a join writes no transient message but the initial data *)
+Theorem join_writes_only_initial limits gated ops c rn rs rep c' t :
+  let h := run (init limits gated) ops in
+  In (ToConn c' (STransient t)) (snd (step h (OJoin c rn rs rep))) -> exists d, t = TInit d.
+Proof.
+  cbv zeta. intros Hin. exact (trans_frame _ (OJoin c rn rs rep) (busnt_reachable limits gated ops) c' t Hin).
+Qed.
